@@ -64,7 +64,7 @@ func VerifRestartChain() {
 		if err := tx0.Commit(); err != nil {
 			panic(err)
 		}
-		return d
+		return vrtResume(db) // every daemon of this harness was started on its database by the real start-up code
 	}
 	cur := base
 	oprC, sprC, txC := config.OPRChain, config.SPRChain, config.TransactionChain
